@@ -774,6 +774,14 @@ func (c15) Case(c *core.Ctx) {
 		}
 		// gob streams are long: all truncations, substitutions at a sample of positions
 		c15gobInput(c, b, false)
+		if len(b) < 400 {
+			// the first document followed by more data: a second Gob() result, the same stream twice, stray bytes
+			b2, _ := mxj.Map(g.Map(r, 1)).Gob()
+			for _, tail := range [][]byte{b2, b, {0}, {3, 4, 0}, []byte("tail")} {
+				c.Count("gob:document-then-more-data")
+				c15gobInput(c, append(append([]byte{}, b...), tail...), true)
+			}
+		}
 		for p := 0; p <= len(b); p++ {
 			c15gobInput(c, b[:p], true)
 		}
